@@ -32,7 +32,10 @@ OUT = HERE.parent / "lean" / "AgpTpf" / "Gen" / "Kernels.lean"
 
 # (file, Class.method, lean name[, mode]); mode "value" (default): the function's result; "gen": a generator whose body is
 # `assignments; for i in range(..): assignments; yield <expr>` → the list of the int payloads yielded (the maximal sub-expressions
-# of the yielded expression built only from locals); "plan": a function doing file I/O → the list of its seek/skip/read operations
+# of the yielded expression built only from locals); "plan": a function doing file I/O → the list of its seek/skip/read operations;
+# "tests": every `if` test of the function, in source order, as one Bool definition each (`<name>_test<i>`) — the guards of a function
+# whose body mutates objects; local assignments before a test are inlined as `let`s; a method call `x.m(args)` inside a test is a Bool
+# variable `x_m`
 KERNELS = [
     ("assembly/fragment.py", "Fragment.length", "Fragment_length"),
     ("assembly/fragment.py", "Fragment.overlaps", "Fragment_overlaps"),
@@ -44,6 +47,9 @@ KERNELS = [
     ("assembly/overlap_result.py", "OverlapResult.end_overhang", "OverlapResult_end_overhang"),
     ("assembly/overlap_result.py", "OverlapResult.start_row_bait_overlap", "OverlapResult_start_row_bait_overlap"),
     ("assembly/overlap_result.py", "OverlapResult.end_row_bait_overlap", "OverlapResult_end_row_bait_overlap"),
+    ("assembly/build_utils.py", "OverhangPremise.improves", "OverhangPremise_improves"),
+    ("assembly/overlap_result.py", "OverlapResult.trim_large_overhangs", "OverlapResult_trim_large_overhangs", "tests"),
+    ("assembly/build_utils.py", "OverhangResolver.make_fixes", "OverhangResolver_make_fixes", "tests"),
     ("fasta/index.py", "FastaIndex.fwd_chunks", "FastaIndex_fwd_chunks", "gen"),
     ("fasta/index.py", "FastaIndex.rev_chunks", "FastaIndex_rev_chunks", "gen"),
     ("fasta/index.py", "FastaIndex.get_gap_iter", "FastaIndex_get_gap_iter", "gen"),
@@ -101,12 +107,18 @@ def is_text(v):
     return v.endswith("name")
 
 
+def is_list(v):
+    return v.endswith("rows") or v.endswith("list")
+
+
 class Tr:
     def __init__(self, mode="value"):
         self.mode = mode
         self.files = set()      # plan mode: local names aliasing the input file handle
         self.bufs = set()       # plan mode: local names of the BytesIO being filled
         self.payload_n = None   # gen mode: number of ints per yielded item
+        self.aliases = {}       # tests mode: local name -> (lean text, type) for non-int locals
+        self.tests = []         # tests mode: (lets, lean text) per `if`
         self.free = []          # free variables in first-use order
         self.bound = set()
         self.kinds = set()      # kinds of returned values: 'int', 'bool', 'none'
@@ -130,6 +142,11 @@ class Tr:
             raise Unsupported(f"constant {e.value!r}")
         v = var_of(e)
         if v is not None:
+            if v in self.aliases:
+                return self.aliases[v]
+            if is_list(v):
+                self.use("len_" + v)
+                return "len_" + v, "list"          # only its truthiness / length can be used
             self.use(v)
             return v, ("text" if is_text(v) else "int")
         if isinstance(e, ast.BinOp):
@@ -154,6 +171,8 @@ class Tr:
                 return f"(-{a})", "int"
             if isinstance(e.op, ast.Not) and ta == "bool":
                 return f"(!{a})", "bool"
+            if isinstance(e.op, ast.Not) and ta == "list":
+                return f"(decide ({a} = 0))", "bool"
             raise Unsupported("unary operator")
         if isinstance(e, ast.Compare):
             parts, left = [], e.left
@@ -181,6 +200,12 @@ class Tr:
             if tc != "bool" or ta != tb:
                 raise Unsupported("conditional expression")
             return f"(if {c} = true then {a} else {b})", ta
+        if isinstance(e, ast.Call) and isinstance(e.func, ast.Name) and e.func.id == "len" and len(e.args) == 1 and not e.keywords:
+            v = var_of(e.args[0])
+            if v is None:
+                raise Unsupported("len() of an expression")
+            self.use("len_" + v)
+            return "len_" + v, "int"
         if isinstance(e, ast.Call) and isinstance(e.func, ast.Name) and not e.keywords:
             f = e.func.id
             args = [self.expr(a) for a in e.args]
@@ -193,6 +218,11 @@ class Tr:
             if f == "int" and len(args) == 1 and args[0][1] == "int":
                 return args[0][0], "int"
             raise Unsupported(f"call {f}")
+        if isinstance(e, ast.Call) and isinstance(e.func, ast.Attribute) and self.mode == "tests" and not e.keywords:
+            v = var_of(e.func)
+            if v is not None:
+                self.use("b_" + v)
+                return "b_" + v, "bool"
         raise Unsupported(type(e).__name__)
 
     # ---- statements with continuation; returns a list of lines of a Lean term
@@ -267,6 +297,38 @@ class Tr:
         if self.mode == "gen" and isinstance(s, ast.For):
             return self.gen_loop(s, rest, ind)
         raise Unsupported(type(s).__name__)
+
+    # ---- tests mode -----------------------------------------------------------------------------------------------
+    def collect_tests(self, stmts, lets):
+        """walk the statements in source order; `lets` = list of (name, lean) for int locals assigned so far on this path"""
+        for s in stmts:
+            if isinstance(s, ast.Assign) and len(s.targets) == 1 and isinstance(s.targets[0], ast.Name):
+                try:
+                    x, t = self.expr(s.value)
+                except Unsupported:
+                    continue
+                nm = mangle(s.targets[0].id)
+                if t == "int":
+                    lets = lets + [(nm, x)]
+                    self.bound.add(nm)
+                else:
+                    self.aliases[nm] = (x, t)
+            elif isinstance(s, ast.Assign) and len(s.targets) == 1 and isinstance(s.targets[0], ast.Tuple):
+                # `frst, scnd = prem_list`: the names stay free variables (objects)
+                continue
+            elif isinstance(s, ast.If):
+                c, t = self.expr(s.test)
+                if t == "int":
+                    c, t = f"(decide ({c} ≠ 0))", "bool"
+                if t == "list":
+                    c, t = f"(decide ({c} ≠ 0))", "bool"
+                if t != "bool":
+                    raise Unsupported("test is not boolean")
+                self.tests.append((list(lets), c))
+                self.collect_tests(s.body, lets)
+                self.collect_tests(s.orelse, lets)
+            elif isinstance(s, (ast.For, ast.While)):
+                self.collect_tests(s.body, lets)
 
     # ---- gen mode -------------------------------------------------------------------------------------------------
     def range_of(self, it):
@@ -410,10 +472,36 @@ def translate(rel, qual, lean_name, mode="value"):
     if fn is None:
         return f"/- {rel}::{qual}: not found in the source -/\ndef {lean_name}_UNSUPPORTED : Unit := ()\n"
     tr = Tr(mode)
+    if mode == "tests":
+        try:
+            tr.collect_tests(list(fn.body), [])
+            if not tr.tests:
+                raise Unsupported("no if-test found")
+        except Unsupported as e:
+            return f"/- {rel}::{qual}: outside the translated subset: {e} -/\ndef {lean_name}_UNSUPPORTED : Unit := ()\n"
+        src = ast.get_source_segment((SRC / rel).read_text(), fn) or ""
+        doc = "\n".join("    " + x for x in src.splitlines()).replace("-/", "- /")
+        out = [f"/- the `if` tests of {rel}::{qual}, in source order\n{doc}\n-/"]
+        for i, (lets, c) in enumerate(tr.tests):
+            sub = Tr("tests")
+            # free variables of this test only
+            import re as _re
+            ident = lambda txt: set(_re.findall(r"[A-Za-z_][A-Za-z_0-9]*", txt))
+            names = ident(c)
+            used = []
+            for n, x in reversed(lets):          # keep only the lets the test (transitively) uses; a later let shadows an earlier one
+                if n in names and n not in {u for u, _ in used}:
+                    used.insert(0, (n, x))
+                    names |= ident(x)
+            letnames = {n for n, _ in used}
+            free = sorted(v for v in tr.free if v in names and v not in letnames)
+            def ty(v):
+                return "Bool" if v.startswith("b_") else ("List Char" if is_text(v) else "Int")
+            params = " ".join(f"({v} : {ty(v)})" for v in free)
+            body = "".join(f"  let {n} : Int := {x}\n" for n, x in used) + f"  {c}"
+            out.append(f"def {lean_name}_test{i} {params} : Bool :=\n{body}\n")
+        return "\n".join(out)
     try:
-        if mode in ("gen", "plan"):
-            # parameters of the function are ordinary free variables; they may be re-assigned (`start -= 1`)
-            pass
         lines = tr.block(list(fn.body), 1)
         if "bool" in tr.kinds and len(tr.kinds) > 1:
             raise Unsupported("mixed Bool / Int / None results")
@@ -439,7 +527,9 @@ def translate(rel, qual, lean_name, mode="value"):
             body.append(pad + ret(s[4:-1]))
         else:
             body.append(l)
-    params = " ".join(f"({v} : {'List Char' if is_text(v) else 'Int'})" for v in sorted(tr.free))
+    def ty(v):
+        return "Bool" if v.startswith("b_") else ("List Char" if is_text(v) else "Int")
+    params = " ".join(f"({v} : {ty(v)})" for v in sorted(tr.free))
     src = ast.get_source_segment((SRC / rel).read_text(), fn) or ""
     doc = "\n".join("    " + x for x in src.splitlines())
     return f"/- translated from {rel}::{qual}\n{doc}\n-/\ndef {lean_name} {params} : {rty} :=\n" + "\n".join(body) + "\n"
